@@ -288,30 +288,42 @@ Definition ok_prefix (recs : list rec) (bytes : list N) : bool :=
   existsb (fun k => match_recs (firstn k recs) bytes) (seq 0 (S (length recs))).
 
 (* ------------------------------------------------------------------ lazy recording *)
-(* mcount_ret_stack as far as record_trace_data looks at it *)
-Record call := { c_addr : N; c_start : N; c_pl : list N }.     (* child_ip, start_time, saved arguments *)
+(* mcount_ret_stack as far as record_trace_data looks at it.  `c_skip`: the frame carries
+   MCOUNT_FL_NORECORD (a function hidden by -N, a PLT call beyond the depth limit, ...): it is on the
+   return stack but gets no record, is never marked WRITTEN and does not count for the depth *)
+Record call := { c_addr : N; c_start : N; c_pl : list N; c_skip : bool }.
 Record frame := { fr_call : call; fr_written : bool }.          (* + MCOUNT_FL_WRITTEN *)
 Inductive op :=
-| OEnter (addr time : N) (pl : list N)       (* mcount_entry, argument payload as saved *)
-| OExit (time : N) (pl : list N).            (* mcount_exit, return value payload *)
+| OEnter (addr time : N) (pl : list N) (skip : bool)   (* hook entry that pushes a frame; argument payload as saved *)
+| OExit (time : N) (pl : list N).                      (* hook exit of the innermost frame; return value payload *)
 
 Definition entry_rec (depth : nat) (c : call) : rec :=
   {| r_time := c_start c; r_type := UFTRACE_ENTRY; r_depth := N.of_nat depth; r_addr := c_addr c; r_pl := c_pl c |}.
 Definition exit_rec (depth : nat) (c : call) (t : N) (pl : list N) : rec :=
   {| r_time := t; r_type := UFTRACE_EXIT; r_depth := N.of_nat depth; r_addr := c_addr c; r_pl := pl |}.
-Definition mark (f : frame) : frame := {| fr_call := fr_call f; fr_written := true |}.
-Definition new_frame (a t : N) (pl : list N) : frame :=
-  {| fr_call := {| c_addr := a; c_start := t; c_pl := pl |}; fr_written := false |}.
+Definition fr_skip (f : frame) : bool := c_skip (fr_call f).
+(* record_ret_stack sets WRITTEN; frames with SKIP_FLAGS are stepped over *)
+Definition mark (f : frame) : frame := if fr_skip f then f else {| fr_call := fr_call f; fr_written := true |}.
+Definition new_frame (a t : N) (pl : list N) (skip : bool) : frame :=
+  {| fr_call := {| c_addr := a; c_start := t; c_pl := pl; c_skip := skip |}; fr_written := false |}.
+(* rstack->depth = mtdp->record_idx at entry: the number of recordable frames below *)
+Definition rdepth (l : list frame) : nat := length (filter (fun f => negb (fr_skip f)) l).
+Definition cdepth (l : list call) : nat := length (filter (fun c => negb (c_skip c)) l).
 
 (* the rstack is kept bottom first.  record_trace_data(top): walk down while the frame below
-   is not WRITTEN, then write ENTRY records upwards.  Returns the records and the marked stack. *)
+   is not WRITTEN, then write the ENTRY records of the recordable frames upwards.
+   Returns the records and the marked stack. *)
 Fixpoint unwritten_top (rstk : list frame) : nat :=      (* on the reversed stack: top first *)
   match rstk with
   | [] => 0
   | f :: t => if fr_written f then 0 else S (unwritten_top t)
   end.
 Fixpoint entries_from (depth : nat) (l : list frame) : list rec :=
-  match l with [] => [] | f :: t => entry_rec depth (fr_call f) :: entries_from (S depth) t end.
+  match l with
+  | [] => []
+  | f :: t => if fr_skip f then entries_from depth t
+              else entry_rec depth (fr_call f) :: entries_from (S depth) t
+  end.
 Definition flush_entries (stk : list frame) : list rec * list frame :=
   match rev stk with
   | [] => ([], stk)
@@ -320,21 +332,22 @@ Definition flush_entries (stk : list frame) : list rec * list frame :=
       else
         let n := S (unwritten_top below) in
         let keep := length stk - n in
-        (entries_from keep (skipn keep stk), firstn keep stk ++ map mark (skipn keep stk))
+        (entries_from (rdepth (firstn keep stk)) (skipn keep stk), firstn keep stk ++ map mark (skipn keep stk))
   end.
 
 (* one hook call; returns the records written by it (in order) *)
 Definition op_step (stk : list frame) (o : op) : list frame * list rec :=
   match o with
-  | OEnter a t pl => (stk ++ [new_frame a t pl], [])
+  | OEnter a t pl skip => (stk ++ [new_frame a t pl skip], [])
   | OExit t pl =>
       match rev stk with
       | [] => (stk, [])
       | top :: _ =>
+          if fr_skip top then (removelast stk, [])         (* NORECORD: mcount_exit_filter_record records nothing *)
           (* mcount_exit_filter_record with threshold 0: end - start > 0 (unsigned) or WRITTEN *)
-          if negb (t =? c_start (fr_call top))%N || fr_written top then
+          else if negb (t =? c_start (fr_call top))%N || fr_written top then
             let '(es, stk') := flush_entries stk in
-            (removelast stk', es ++ [exit_rec (length stk - 1) (fr_call top) t pl])
+            (removelast stk', es ++ [exit_rec (rdepth (removelast stk)) (fr_call top) t pl])
           else (removelast stk, [])
       end
   end.
@@ -344,32 +357,35 @@ Fixpoint ops_run (stk : list frame) (ops : list op) : list frame * list (list re
   | o :: t => let '(stk1, rs) := op_step stk o in
               let '(stk2, rss) := ops_run stk1 t in (stk2, rs :: rss)
   end.
-(* segv_handler / PLT_FL_FLUSH: record_trace_data(top) with end_time = 0 *)
+(* segv_handler / PLT_FL_FLUSH: record_trace_data(innermost frame) with end_time = 0 *)
 Definition segv_flush (stk : list frame) : list rec := fst (flush_entries stk).
 
-(* what an eager tracer would have written (its stack carries no flags) *)
+(* what an eager tracer would have written (its stack carries no WRITTEN flags) *)
 Fixpoint eager (stk : list call) (ops : list op) : list rec :=
   match ops with
   | [] => []
-  | OEnter a t pl :: r =>
-      let c := {| c_addr := a; c_start := t; c_pl := pl |} in
-      entry_rec (length stk) c :: eager (stk ++ [c]) r
+  | OEnter a t pl skip :: r =>
+      let c := {| c_addr := a; c_start := t; c_pl := pl; c_skip := skip |} in
+      if skip then eager (stk ++ [c]) r
+      else entry_rec (cdepth stk) c :: eager (stk ++ [c]) r
   | OExit t pl :: r =>
       match rev stk with
       | [] => eager stk r
-      | top :: _ => exit_rec (length stk - 1) top t pl :: eager (removelast stk) r
+      | top :: _ =>
+          if c_skip top then eager (removelast stk) r
+          else exit_rec (cdepth (removelast stk)) top t pl :: eager (removelast stk) r
       end
   end.
-(* balanced so far (no exit without a call), and no call returns at the clock value it was
+(* balanced so far (no exit without a call), and no recorded call returns at the clock value it was
    entered with (such a call is dropped by the time filter even with threshold 0, see C02) *)
 Fixpoint wf_ops (stk : list call) (ops : list op) : bool :=
   match ops with
   | [] => true
-  | OEnter a t pl :: r => wf_ops (stk ++ [{| c_addr := a; c_start := t; c_pl := pl |}]) r
+  | OEnter a t pl skip :: r => wf_ops (stk ++ [{| c_addr := a; c_start := t; c_pl := pl; c_skip := skip |}]) r
   | OExit t pl :: r =>
       match rev stk with
       | [] => false
-      | top :: _ => negb (t =? c_start top)%N && wf_ops (removelast stk) r
+      | top :: _ => (c_skip top || negb (t =? c_start top)%N) && wf_ops (removelast stk) r
       end
   end.
 
